@@ -1,5 +1,6 @@
 """C01 — TFIM sampler and the quantum thermal state (partial by nature; see QmcProps/C01.lean)."""
 from checks import big_scale
+from checks import extra_c01limit
 from checks import kern, law_audits
 from checks import full_step
 from checks import pure_fns
@@ -108,5 +109,6 @@ def main(ck):
     law_audits.run(ck)   # idealised law of the executable model = the Markov kernel of the invariance theorems
     api_cov.run(ck, "c01")   # otherwise unexercised public API, model-free oracles of this property
     scale_inv.run(ck, "c01")   # power-of-two unit change: identical trajectory, energies exactly scaled (model-free twin oracle)
+    extra_c01limit.run(ck)   # the limit L -> infinity of the capstone: marginal -> diag(exp(-beta H))/Z, energy estimator -> Tr(H exp(-beta H))/Z
     big_scale.run(ck, "manybonds.full")   # large-scale regime (>65536 bonds/ops/slots, release semantics): model-free oracles of the property statements
     return ck.finish(RULE)
